@@ -52,6 +52,31 @@ type Query {{ f(a: {expr}, i: In): {expr} }}
     }
 
 
+def gen_member_type(rt, ql, target, oneof):
+    """the generated type of an input-object member `m: <ql> <target>` (struct field or @oneOf variant payload), Box removed"""
+    tname = 'Int' if target == 'S' else target
+    expr = K.graphql_type_expr(ql, tname)
+    sdl = ('schema { query: Query }\n' + f'input I{" @oneOf" if oneof else ""} {{ m: {expr} o: Int }}\n' +
+           'input I1 { me: I1 }\ninput I2 { x: Int }\ntype Query { f(i: I): Int }\n')
+    r = rt.gen(sdl, 'query Q($i: I) { f(i: $i) }\n', {})
+    if r['status'] != 'ok':
+        return None, f"{r['status']}: {r['text'][:200]}", sdl
+    mod = native.find_mod(native.parse_generated(r['text']))
+    it = native.find_item(mod.items, 'I', 'enum' if oneof else 'struct')
+    if it is None:
+        return None, 'type I not generated', sdl
+    f = it.field('M' if oneof else 'm')
+    if not f:
+        return None, 'member m not generated', sdl
+    ty = native.type_str(f[1]).replace(' ', '')
+    while ty.startswith('(') and ty.endswith(')'):
+        ty = ty[1:-1]
+    if ty.startswith('Box<') and ty.endswith('>'):
+        ty = ty[4:-1]
+    want = K.ref_nesting_concrete((['R'] + list(ql)) if oneof else ql).replace('T', tname)
+    return ty, want, sdl
+
+
 def expected(ql):
     return K.ref_nesting_concrete(ql).replace('T', 'Int')
 
@@ -73,6 +98,10 @@ def main():
     cands += K.k_decorate_type(R, maxlen)
     cands += K.k_resolve_field_type(R, depth)
     cands += K.k_from_json_type(R, depth)
+    # use sites: response fields, variables, input-object members, @oneOf variants (names, qualifiers, options symbolic)
+    uq = 2 if tier == 'quick' else 3
+    use_cands = [c for c in R.run_parallel([(K.k_render_field, (uq, {'C13'})), (K.k_variable_field, (uq,)), (K.k_input_member, ('struct', uq)),
+                                            (K.k_input_member, ('oneof', uq))]) if c['prop'] == 'C13']
 
     # --- differential self-test of the engine on concrete inputs (also exercises the three positions)
     selftest = 0
@@ -126,6 +155,33 @@ def main():
                           dict(kind='solver', kernel=c['kernel'], qualifiers=ql, via=via, generated=got, want=want, model_output=c.get('got')))
         else:
             out.inconc(f"solver counterexample for {c['kernel']} {ql} did not reproduce natively (encoding error?)")
+    for c in use_cands:
+        mdl = c.get('model') or {}
+        ql = mdl.get('qualifiers', [])
+        key = c['kernel'] + ':' + c['what']
+        if key in seen or not valid(ql):
+            continue
+        if c['kernel'].startswith('input_member'):
+            ty, want, sdl = gen_member_type(rt, ql, mdl.get('target', 'S'), c['kernel'].endswith('oneof'))
+            replayed += 1
+            if ty is None:
+                out.inconc(f'use-site counterexample {key} {mdl} could not be replayed: {want}')
+            elif ty != want:
+                seen.add(key)
+                out.violation(f"use-site:{c['kernel']}", f"input member `m: {K.graphql_type_expr(ql, mdl.get('target', 'S'))}`: generated `{ty}`, rule says `{want}`",
+                              dict(kind='member', kernel=c['kernel'], qualifiers=ql, target=mdl.get('target', 'S'), oneof=c['kernel'].endswith('oneof'), schema=sdl))
+            else:
+                out.inconc(f'use-site counterexample {key} {mdl} did not reproduce natively')
+        else:
+            got = gen_types(rt, ql, 'sdl')
+            replayed += 1
+            want = expected(ql)
+            bad = {pos: ty for pos, ty in got.items() if ty != want}
+            if bad:
+                seen.add(key)
+                out.violation(f"use-site:{c['kernel']}", f"{K.graphql_type_expr(ql)}: generated {bad}, rule says `{want}`", dict(kind='solver', kernel=c['kernel'], qualifiers=ql, via='sdl'))
+            else:
+                out.inconc(f'use-site counterexample {key} {mdl} did not reproduce natively')
     if cands and not any(valid(c['qualifiers']) for c in cands):
         out.inconc('solver counterexamples exist only for `!!` qualifier lists, which no GraphQL type expression produces')
     for w in R.inconclusive:
@@ -151,6 +207,10 @@ def replay(path):
     p = json.load(open(path))
     sc = vc.scratch(PROP + 'r')
     rt = native.ReplayTool(sc)
+    if p.get('kind') == 'member':
+        ty, want, _ = gen_member_type(rt, p['qualifiers'], p['target'], p['oneof'])
+        print(json.dumps(dict(generated=ty, rule=want)))
+        return 1 if ty != want else 0
     if 'qualifiers' in p:
         got = gen_types(rt, p['qualifiers'], p.get('via', 'sdl'))
         want = expected(p['qualifiers'])
